@@ -714,3 +714,32 @@ package fpgo
 //@   ensures fresh-result: input != nil && len(SSI(input)) > 0 ==> r0 != nil && fresh(r0) && SSI(r0) != nil && fresh(SSI(r0))
 //@   ensures keys: input != nil && len(SSI(input)) > 0 ==> forallv(x, has(SSI(r0), x) == (has(SSI(streamSetSelf), x) && !has(SSI(input), x)))
 //@   ensures values-kept: input != nil && len(SSI(input)) > 0 ==> forallv(x, has(SSI(r0), x) ==> SSI(r0)[x] == SSI(streamSetSelf)[x])
+
+// StreamSetForInterfaceDef.Union / Intersection: the interface{} twins of StreamSetDef.Union / Intersection (same characterisations)
+//@ func (StreamSetForInterfaceDef).Union
+//@   prop C04,C05
+//@   requires streamSetSelf != nil && SSI_WF(streamSetSelf) && (input != nil ==> SSI_WF(input))
+//@   ensures nothing-to-add: input == nil || len(SSI(input)) == 0 ==> r0 == streamSetSelf
+//@   ensures fresh-result: input != nil && len(SSI(input)) > 0 ==> r0 != nil && fresh(r0) && SSI(r0) != nil && fresh(SSI(r0))
+//@   ensures keys-of-both: input != nil && len(SSI(input)) > 0 ==> forallv(x, has(SSI(r0), x) == (has(SSI(streamSetSelf), x) || has(SSI(input), x)))
+//@   ensures extended: input != nil && len(SSI(input)) > 0 ==> forallv(x, has(SSI(streamSetSelf), x) && SUBTRACTSI(x) ==> isptr(SSI(r0)[x], StreamForInterfaceDef) && STI(r0, x) != nil && fresh(STI(r0, x)) && len(*STI(r0, x)) == ite(untyped(SSI(streamSetSelf)[x]), 0, len(*STI(streamSetSelf, x))) + len(*STI(input, x)) && forall(j, 0, len(*STI(input, x)), (*STI(r0, x))[ite(untyped(SSI(streamSetSelf)[x]), 0, len(*STI(streamSetSelf, x))) + j] == (*STI(input, x))[j]) && (!untyped(SSI(streamSetSelf)[x]) ==> forall(j, 0, len(*STI(streamSetSelf, x)), (*STI(r0, x))[j] == (*STI(streamSetSelf, x))[j])))
+//@   ensures others-shared: input != nil && len(SSI(input)) > 0 ==> forallv(x, has(SSI(r0), x) && !(has(SSI(streamSetSelf), x) && SUBTRACTSI(x)) ==> SSI(r0)[x] == ite(has(SSI(input), x), SSI(input)[x], SSI(streamSetSelf)[x]))
+//@ func (StreamSetForInterfaceDef).Union loop 0
+//@   invariant result: result != nil && fresh(result) && SSI(result) != nil && fresh(SSI(result)) && SSI(streamSetSelf) == _m
+//@   invariant keys-of-both: forallv(x, has(SSI(result), x) == (has(SSI(streamSetSelf), x) || has(SSI(input), x)))
+//@   invariant extended: forallv(x, _visited(x) && SUBTRACTSI(x) ==> isptr(SSI(result)[x], StreamForInterfaceDef) && STI(result, x) != nil && fresh(STI(result, x)) && len(*STI(result, x)) == ite(untyped(SSI(streamSetSelf)[x]), 0, len(*STI(streamSetSelf, x))) + len(*STI(input, x)) && forall(j, 0, len(*STI(input, x)), (*STI(result, x))[ite(untyped(SSI(streamSetSelf)[x]), 0, len(*STI(streamSetSelf, x))) + j] == (*STI(input, x))[j]) && (!untyped(SSI(streamSetSelf)[x]) ==> forall(j, 0, len(*STI(streamSetSelf, x)), (*STI(result, x))[j] == (*STI(streamSetSelf, x))[j])))
+//@   invariant others-shared: forallv(x, has(SSI(result), x) && !(_visited(x) && SUBTRACTSI(x)) ==> SSI(result)[x] == ite(has(SSI(input), x), SSI(input)[x], SSI(streamSetSelf)[x]))
+
+//@ func (StreamSetForInterfaceDef).Intersection
+//@   prop C04,C05
+//@   requires streamSetSelf != nil && SSI_WF(streamSetSelf) && (input != nil ==> SSI_WF(input))
+//@   ensures empty-operand: input == nil || len(SSI(input)) == 0 ==> r0 != nil && fresh(r0) && len(SSI(r0)) == 0
+//@   ensures fresh-result: input != nil && len(SSI(input)) > 0 ==> r0 != nil && fresh(r0) && SSI(r0) != nil && fresh(SSI(r0))
+//@   ensures keys-of-both: input != nil && len(SSI(input)) > 0 ==> forallv(x, has(SSI(r0), x) == (has(SSI(streamSetSelf), x) && has(SSI(input), x)))
+//@   ensures intersected: input != nil && len(SSI(input)) > 0 ==> forallv(x, has(SSI(r0), x) && SUBTRACTSI(x) ==> isptr(SSI(r0)[x], StreamForInterfaceDef) && STI(r0, x) != nil && fresh(STI(r0, x)) && (untyped(SSI(streamSetSelf)[x]) ==> len(*STI(r0, x)) == 0) && (!untyped(SSI(streamSetSelf)[x]) ==> forall(j, 0, len(*STI(r0, x)), CONTAINS(*STI(streamSetSelf, x), (*STI(r0, x))[j]) && CONTAINS(*STI(input, x), (*STI(r0, x))[j]))))
+//@   ensures others-shared: input != nil && len(SSI(input)) > 0 ==> forallv(x, has(SSI(r0), x) && !SUBTRACTSI(x) ==> SSI(r0)[x] == SSI(streamSetSelf)[x])
+//@ func (StreamSetForInterfaceDef).Intersection loop 0
+//@   invariant result: result != nil && fresh(result) && SSI(result) != nil && fresh(SSI(result)) && SSI(result) == _m
+//@   invariant keys-of-both: forallv(x, has(SSI(result), x) == (has(SSI(streamSetSelf), x) && has(SSI(input), x)))
+//@   invariant intersected: forallv(x, has(SSI(result), x) && _visited(x) && SUBTRACTSI(x) ==> isptr(SSI(result)[x], StreamForInterfaceDef) && STI(result, x) != nil && fresh(STI(result, x)) && (untyped(SSI(streamSetSelf)[x]) ==> len(*STI(result, x)) == 0) && (!untyped(SSI(streamSetSelf)[x]) ==> forall(j, 0, len(*STI(result, x)), CONTAINS(*STI(streamSetSelf, x), (*STI(result, x))[j]) && CONTAINS(*STI(input, x), (*STI(result, x))[j]))))
+//@   invariant others-shared: forallv(x, has(SSI(result), x) && !(_visited(x) && SUBTRACTSI(x)) ==> SSI(result)[x] == SSI(streamSetSelf)[x])
